@@ -1,5 +1,6 @@
 import ComposeVerif.Lemmas.PathsOrigin
 import ComposeVerif.Lemmas.PathsDir
+import ComposeVerif.Lemmas.PathsChain
 import ComposeVerif.Lemmas.AuditCmd
 /-!
 # C12 — the right directory anchors a path: per-origin base directories of the loader
@@ -155,5 +156,69 @@ theorem extends2_origin (k : Nat) (cfg : Cfg) (isDir : Str → Bool) (f1 f2 s : 
     simp only [absIn]
   simp only [predict, stagesOf, extendsLevel, hreb, List.nil_append, List.cons_append, List.singleton_append, if_true]
   rw [applyStages_two k cfg _ cfg.wd s hWne hl2.1 hl2.2.1 hhome, hl2.2.2, ebase]
+
+/-! ## origin chains of any depth (round 5) -/
+
+/-- **a chain of `n` includes, any `n`**: `predict` — the `n + 1` staged resolutions the loader performs — is ONE
+resolution against the directory of the innermost included file, each file being found from the directory of the
+previous one (`include_origin` is `n = 1`, `include2_origin` is `n = 2`) -/
+theorem include_chain_origin (k : Nat) (cfg : Cfg) (isDir : Str → Bool) (ps : List Str) (s : Str)
+    (hW : isAbs cfg.wd = true) (hok : InclOK isDir (fun _ => True) cfg.wd ps)
+    (hhome : ∀ h, cfg.home = some h → h ≠ []) :
+    predict k cfg isDir (inclSteps ps) true s = resolveKind k { cfg with wd := inclDir id cfg.wd ps } s := by
+  have h := stagesOf_incl_chain cfg isDir [] id (fun _ => True)
+    (by intro L c _ _; simp [stagesOf, chainBase]) ps cfg.wd cfg.wd hW hok
+  simp only [List.append_nil] at h
+  simp only [predict, if_true]
+  rw [applyStages_chain k cfg cfg.wd (abs_ne_nil _ hW) hhome _ h.1 s, h.2]
+
+/-- **`extends` inside the innermost of `n` included files, any `n`**: the base of the inherited attributes is the
+directory part of `extends.file`, taken from the directory of that included file (`extends_origin` is `n = 0`,
+`include_extends_origin` is `n = 1`) -/
+theorem include_chain_extends_origin (k : Nat) (cfg : Cfg) (isDir : Str → Bool) (ps : List Str) (f s : Str)
+    (hW : isAbs cfg.wd = true) (hok : InclOK isDir (fun L => isDir (absIn L f) = false) cfg.wd ps)
+    (hhome : ∀ h, cfg.home = some h → h ≠ []) :
+    predict k cfg isDir (inclSteps ps ++ [.ext f]) true s =
+      resolveKind k { cfg with wd := inclDir (fun L => clean (absIn L (dir f))) cfg.wd ps } s := by
+  have h := stagesOf_incl_chain cfg isDir [.ext f] (fun L => clean (absIn L (dir f))) (fun L => isDir (absIn L f) = false)
+    (by
+      intro L c hL hfin
+      have hl := loaderDir_of_file isDir L f hL hfin
+      simp only [stagesOf, extendsLevel, List.nil_append, List.mem_singleton, forall_eq, chainBase]
+      exact ⟨⟨hl.1, hl.2.1⟩, hl.2.2⟩) ps cfg.wd cfg.wd hW hok
+  simp only [predict, if_true]
+  rw [applyStages_chain k cfg cfg.wd (abs_ne_nil _ hW) hhome _ h.1 s, h.2]
+
+/-- the directory a chain leads to, unfolded for depth 3 -/
+example (W p1 p2 p3 : Str) :
+    inclDir id W [p1, p2, p3] = dir (absIn (dir (absIn (dir (absIn W p1)) p2)) p3) := rfl
+
+/-- non-vacuity: `/w` includes `a/i.yaml`, which includes `../b/j.yaml`, which includes `c/k.yaml`: the base is `/w/b/c` -/
+example : InclOK (fun _ => false) (fun _ => True) ['/', 'w'] [['a', '/', 'i'], ['.', '.', '/', 'b', '/', 'j'], ['c', '/', 'k']] ∧
+    inclDir id ['/', 'w'] [['a', '/', 'i'], ['.', '.', '/', 'b', '/', 'j'], ['c', '/', 'k']] = ['/', 'w', '/', 'b', '/', 'c'] :=
+  ⟨by simp [InclOK], by decide⟩
+
+
+/-- **resolution off** (`ResolvePaths = false`), a chain of `n ≥ 1` includes: the value is resolved ONCE, against a
+non-empty *relative* directory `R` — and `Join(project directory, R)` is the directory the chain leads to: what such a
+caller sees is the path as written, rebased to be relative to the project directory -/
+theorem include_chain_origin_off (k : Nat) (cfg : Cfg) (isDir : Str → Bool) (p : Str) (ps : List Str) (s : Str)
+    (hW : isAbs cfg.wd = true) (hok : InclOK isDir (fun _ => True) cfg.wd (p :: ps))
+    (hhome : ∀ h, cfg.home = some h → h ≠ []) :
+    ∃ R, R ≠ [] ∧ isAbs R = false ∧ join cfg.wd R = inclDir id cfg.wd (p :: ps) ∧
+      predict k cfg isDir (inclSteps (p :: ps)) false s = resolveKind k { cfg with wd := R } s := by
+  obtain ⟨hf, hrest⟩ := hok
+  have hpath := isAbs_absIn cfg.wd p hW
+  have hl := loaderDir_of_file isDir cfg.wd (absIn cfg.wd p) hW (by rw [absIn_of_abs _ _ hpath]; exact hf)
+  rw [absIn_of_abs _ _ (isAbs_dir _ hpath), clean_dir] at hl
+  have h := stagesOf_incl_chain cfg isDir [] id (fun _ => True)
+    (by intro L c _ _; simp [stagesOf, chainBase]) ps (dir (absIn cfg.wd p)) (loaderDir isDir cfg.wd (absIn cfg.wd p))
+    (isAbs_dir _ hpath) hrest
+  simp only [List.append_nil] at h
+  obtain ⟨c1, c2, c3⟩ := chainBase_join cfg.wd _ (abs_ne_nil _ hW) hl.1 hl.2.1 _ h.1
+  refine ⟨_, c1, c2, ?_, ?_⟩
+  · rw [c3, hl.2.2, h.2]; rfl
+  · simp only [predict, Bool.false_eq_true, if_false, inclSteps, List.map_cons, stagesOf, includeLevel]
+    exact applyStages_chain k cfg _ hl.1 hhome _ h.1 s
 
 end CV.Paths
